@@ -134,7 +134,8 @@ def build(raw: dict) -> dict:
     for mi, p in enumerate(order):
         for bi, m in enumerate(mods[p]["body"]):
             if m["k"] == "cls":
-                rank[f"{p}.{m['name']}"] = (mi, bi)
+                # the root package ranks last: it may derive from classes of every other module
+                rank[f"{p}.{m['name']}"] = ((mi - 1) % len(order), bi)
     for p in order:
         for m in mods[p]["body"]:
             if m["k"] != "cls":
@@ -154,10 +155,23 @@ def build(raw: dict) -> dict:
                         cands.append(other["name"])  # external (unloadable) base: ignored by the MRO
                     elif fin is not None and pkg.kind(fin) == "cls" and rank[fin] < rank[me]:
                         cands.append(other["name"])
+            foreign = sorted(c for c in rank if rank[c] < rank[me] and pkg.module_of(c) != p)
             for rb in raw_bases:
-                if not cands:
-                    break
-                name = cands[rb % len(cands)]
+                name = None
+                if foreign and (not cands or rb % 2):
+                    # derive from a class of another module: import it (not exported) unless it is already in scope
+                    fc = foreign[(rb // 2) % len(foreign)]
+                    fmod, fname = fc.rsplit(".", 1)
+                    have = [o["name"] for o in mods[p]["body"] if o["k"] == "imp" and o["src"] == fmod and o["tgt"] == fname]
+                    if have:
+                        name = have[0]
+                    elif all(o["name"] != fname for o in mods[p]["body"]):
+                        mods[p]["body"].insert(0, {"k": "imp", "name": fname, "src": fmod, "tgt": fname})
+                        name = fname
+                if name is None:
+                    if not cands:
+                        continue
+                    name = cands[rb % len(cands)]
                 if name in m["bases"]:
                     continue
                 m["bases"].append(name)
